@@ -11,7 +11,10 @@
 (*   path, text, marker            the file holding the planted construct: *)
 (*                                 its path, its text (non-ASCII shown as  *)
 (*                                 '@', char for char) and the 1-based     *)
-(*                                 character offset of the construct       *)
+(*                                 character offset of the offending       *)
+(*                                 element of the planted form             *)
+(*   fstart                        offset of the planted form's first line *)
+(*                                 (= marker for one-line constructs)      *)
 (*   base_ok                       the unplanted program compiled          *)
 (*   res, efile, eline             result class of the planted program and *)
 (*                                 file / span.line_start of its FIRST     *)
@@ -48,14 +51,15 @@ WellFormed(j) ==
               <<"record outside the dimensions", j, c>>)
     /\ Assert(Applicable(c), <<"record for an inapplicable case", j, c>>)
     /\ Assert(r.path = PathOf(c.file), <<"path does not belong to the file class", j, r.path>>)
-    /\ Assert(MarkerOK(c, r.text, r.marker), <<"marker does not point at the planted construct", j, c, r.marker>>)
+    /\ Assert(MarkerOK(c, r.text, r.marker, r.fstart),
+              <<"marker does not point at the offending element of the planted form", j, c, r.marker, r.fstart>>)
     /\ Assert(DefSpellings(c.kind) # {} =>
                  (r.marker \in Sites(r.text, c.kind) /\ Cardinality(Sites(r.text, c.kind)) = 2),
               <<"a duplicate needs exactly two definition sites", j, c>>)
     /\ Assert(RelOK(c, r.text, r.leaf, r.twin), <<"imported modules are not laid out as rel says", j, c>>)
     /\ Universe \in {"cross", "part"} =>
           /\ Assert(r.idx \in 1..NCases /\ c = Case(r.idx), <<"universe mismatch at record", j, c>>)
-          /\ Assert(ShapeOK(c, r.text, r.marker), <<"preceding text does not have the named shape", j, c>>)
+          /\ Assert(ShapeOK(c, r.text, r.fstart), <<"preceding text does not have the named shape", j, c>>)
     /\ Universe = "cross" =>
           /\ Assert(N = Cardinality(ApplicableIdx), <<"cross universe incomplete", N, Cardinality(ApplicableIdx)>>)
           /\ Assert(j > 1 => r.idx > Rec[j - 1].idx, <<"records not in index order", j>>)
@@ -70,12 +74,13 @@ TraceInit ==
     /\ ln = 0
     /\ st = "new"
 
+\* after this step pos is the offending position (for duplicates the later introduction) and ln its line
 TraceCheck ==
     /\ st = "new"
     /\ WellFormed(k)
-    /\ ln' = ExpectedLine(C, text, pos)
+    /\ LET op == OffendingPos(C, text, pos) IN pos' = op /\ ln' = LineOf(text, op)
     /\ st' = "run"
-    /\ UNCHANGED <<text, pos, toks, k>>
+    /\ UNCHANGED <<text, toks, k>>
 
 Obs == Verdict(C, ln, Rec[k].res, Rec[k].efile, Rec[k].eline)
 
@@ -104,18 +109,13 @@ TraceNext == TraceCheck \/ TraceBaseRejected \/ TraceConforms \/ TraceReject
 
 TraceSpec == TraceInit /\ [][TraceNext]_tvars
 
-\* Evaluated in every state of every validated record.  text and pos never change, ln only in TraceCheck, so the
-\* (expensive, character-by-character) re-derivations are evaluated in the first state of each record only.
+\* Evaluated in every state of every validated record.  text never changes, pos and ln only in TraceCheck, so the
+\* (expensive, character-by-character) cross-check is evaluated in the "run" state of each record only.
 TraceInv ==
     /\ st \in {"new", "run", "ok", "fail", "basebad"}
     /\ pos \in 1..Len(text) /\ (st # "new" => ln >= 1)
-    /\ st = "run" =>
-          LET op == OffendingPos(C, text, pos)
-              lp == LineOf(text, pos)
-              lo == IF op = pos THEN lp ELSE LineOf(text, op)
-          IN /\ ln = lo                                   \* the expectation is SyltLex's text-derived line
-             /\ lp = 1 + CountNL(text, pos - 1)           \* which agrees with counting newlines one by one
-             /\ lo >= lp
+    /\ st = "run" => /\ ln = 1 + CountNL(text, pos - 1)    \* SyltLex's text-derived line agrees with counting newlines one by one
+                     /\ pos >= Rec[k].marker
     /\ st = "ok" => (Rec[k].efile = PathOf(Rec[k].file) /\ Rec[k].eline = ln /\ Rec[k].res = "err")
 
 TraceTotal == st = "run" => ENABLED TraceNext
